@@ -349,3 +349,42 @@ func Verif_C09_SprintfLong(fill, k int) {
 	verifsym.Observe("got", got)
 	verifsym.Reach("end")
 }
+
+// Verif_C09_LongName: placeholder names beyond the exhaustive bound: a name of
+// n characters (prefix of "DeepCopyIntoMethodNameOfType_01") is bound to "<L>",
+// the same name with its last character replaced is bound to "<M>"; the format
+// is "x@" + name' + "y@" + lookalike + ".z" in which one byte of the first name
+// (case-split position) is an arbitrary name character. Renders exactly what
+// the reference says (the right one of the two arguments, or a panic for an
+// unbound name).
+func Verif_C09_LongName(n int) {
+	full := "DeepCopyIntoMethodNameOfType_01"
+	verifsym.Assume(n >= 2 && n <= len(full))
+	name := full[:n]
+	look := name[:n-1] + "Q"
+	nb := []byte(name)
+	c := verifsym.Byte()
+	verifsym.Assume(vIsName(c))
+	nb[verifsym.IntRange(0, n-1)] = c
+	used := string(nb)
+	format := "x@" + used + "'y@" + look + ".z"
+	want, wantPanic := "", false
+	switch used {
+	case name:
+		want = "x<L>y<M>.z"
+	case look:
+		want = "x<M>y<M>.z"
+	default:
+		wantPanic = true
+	}
+	got := ""
+	panicked := verifsym.Panics(func() {
+		got = vRender(T(format, Arg(name, Block("<L>")), Arg(look, Block("<M>"))))
+	})
+	verifsym.Assert(panicked == wantPanic, "panics iff a placeholder has no bound argument")
+	if !panicked && !wantPanic {
+		verifsym.Assert(got == want, "a long placeholder name is not matched exactly")
+	}
+	verifsym.Observe("got", got)
+	verifsym.Reach("end")
+}
